@@ -697,6 +697,13 @@ run_prog(void)
             SC[s].h = (uint32_t)atoi(prog[++i]);
             do_configure();
             api("configure");
+        } else if (!strcmp(op, "setavg")) {
+            // setavg S K: another averaging window for stream S (takes effect with the configure that follows)
+            int s = atoi(prog[++i]);
+            SC[s].avg = atoi(prog[++i]);
+            ev("{\"e\":\"AvgSet\",\"s\":%d,\"avg\":%d}", s, SC[s].avg);
+            do_configure();
+            api("configure");
         } else if (!strcmp(op, "pixtype")) {
             // pixtype S TYPE: the camera of stream S gets another sample type at unchanged dimensions (then configure)
             int s = atoi(prog[++i]);
